@@ -1148,7 +1148,12 @@ func (n *CustomNode) Exec(ctx context.Context, prepResult any) (any, error) {
 // Post implements Node.Post by calling the custom postFunc if provided
 func (n *CustomNode) Post(ctx context.Context, shared *SharedStore, prepResult, execResult any) (Action, error) {
 	if n.postFunc != nil {
-		return n.postFunc(ctx, shared, NewResult(prepResult), NewResult(execResult))
+		// Exec hands an error Result through as a Result: do not wrap it a second time
+		exec, ok := execResult.(Result)
+		if !ok {
+			exec = NewResult(execResult)
+		}
+		return n.postFunc(ctx, shared, NewResult(prepResult), exec)
 	}
 	return n.BaseNode.Post(ctx, shared, prepResult, execResult)
 }
@@ -1375,6 +1380,10 @@ func WithPostFuncAny(fn func(context.Context, *SharedStore, any, any) (Action, e
 	return &customNodeOption{
 		f: func(n *CustomNode) {
 			n.postFunc = func(ctx context.Context, shared *SharedStore, prepResult, execResult Result) (Action, error) {
+				if execResult.IsError() {
+					// keep the error state visible to the any-style function
+					return fn(ctx, shared, prepResult.Value(), execResult)
+				}
 				return fn(ctx, shared, prepResult.Value(), execResult.Value())
 			}
 		},
